@@ -3,7 +3,7 @@
 Require Extraction.
 Require Import ExtrOcamlBasic.
 From Coq Require Import NArith List.
-From V Require Import Fifo StepCtl.
+From V Require Import Fifo StepCtl GenStepCtl.
 Extraction Language OCaml.
 
 Definition fifo_run_n (sc : list (op N)) : fstate N := frun sc.
@@ -19,4 +19,4 @@ Extraction "vmodel.ml"
   queue_class_atomic
   cinit cstep cinput crun crun_steps ctrace observe cv_as_written cv_repaired mkCV
   ext_quiescentb ext_strictly_quiescentb int_taken ext_taken raised arrived processed
-  macrostep_okb toks_of gate_okb.
+  macrostep_okb toks_of gate_okb skeleton_recheck large_landmarks fast_landmarks.
